@@ -28,7 +28,11 @@ import H3.Spec.Framing
 
     Output: `closed=[codes] res=<results of A/W> U=<results of U> | build=ok|pending|err:<code> stops=[…] g=… pending=[…]`
     `##` alternatives `closed=[c] res=… U=… **`.  Engine `ctlrfc`: the same, judged by
-    `Spec.ControlRules.verdictRfc` (RFC 9114 by the letter also for server push).  -/
+    `Spec.ControlRules.verdictRfc` (RFC 9114 by the letter also for server push, RFC 9204 §4.2 for a closed
+    peer QPACK stream).  `ctl note <role> <cfg> <ops>`: instead of the two answers, which of the oracle's
+    recorded leniencies the line meets — `overtaken=` (R-04d: `overtaken` added H3_CLOSED_CRITICAL_STREAM),
+    `qpack=` (R-04e: `Ev.qpackClosed` was judged), `wt=` (an alternative went past frame type 0x41: `?`),
+    `wtseen=` (0x41 among the control stream's events) — for the NOTE lines of the check.  -/
 namespace H3.Drv.C04
 open H3.Drv H3.Control
 
